@@ -472,6 +472,40 @@ theorem sem_final (K nb : Nat) (hK : 1 ≤ K) (s : Sem) (h : SemInv K nb s) (hst
 example : SemStep 3 (semInit 2) { semInit 2 with spawned := 1, splits := 1, tokens := 3, waiting := 2 } :=
   SemStep.spawnSplit (semInit 2) (by decide)
 
+/-! ## (10) negative digits on demand (the `~` entries of the `MSMX` digit programs)
+
+A scripted point is SUBTRACTED from bucket `w` by giving window `j` the value `2^c − w` and leaving window `j+1` empty:
+`partitionScalars` stores the digit `−w` and carries one into the next window, which becomes the digit `+1`. These are
+the two steps of `recode`; with `digits_sum` / `stored_digits` above they give the digits of the scalars
+`2^(c·(j+1)) − w·2^(c·j)` and `2^(c·whi) − w·Σ 2^(c·k)` that `xVectors` builds. What the processor does with such
+a point, for every sequence of points and digits, is `batchAffine_step_invariant` / `batchAffine_precondition`. -/
+
+theorem neg_digit_step (c : Nat) (wf : Nat → Nat) (j k w : Nat) (hc : 1 ≤ c) (hw : w ≤ 2^(c-1))
+    (hj : wf j = 2^c - w) :
+    recode c wf j (k+1) 0 = (-(w : Int)) :: recode c wf (j+1) k 1 := by
+  have h2 : 2^c = 2 * 2^(c-1) := by
+    obtain ⟨m, rfl⟩ : ∃ m, c = m + 1 := ⟨c - 1, by omega⟩
+    simp [Nat.pow_succ, Nat.mul_comm]
+  have hp : 0 < 2^(c-1) := Nat.two_pow_pos _
+  conv_lhs => rw [recode]
+  simp only [Nat.zero_add, hj]
+  rw [if_pos (by omega)]
+  congr 1
+  simp only [Int.ofNat_eq_natCast]
+  push_cast [Nat.cast_sub (by omega : w ≤ 2^c)]
+  ring
+
+theorem carry_digit_step (c : Nat) (wf : Nat → Nat) (j k : Nat) (hc : 2 ≤ c) (h0 : wf j = 0) :
+    recode c wf j (k+1) 1 = 1 :: recode c wf (j+1) k 0 := by
+  have hp : 2 ≤ 2^(c-1) := by
+    obtain ⟨m, rfl⟩ : ∃ m, c = m + 2 := ⟨c - 2, by omega⟩
+    have : 0 < 2^m := Nat.two_pow_pos _
+    simp [Nat.pow_succ]; omega
+  conv_lhs => rw [recode]
+  simp only [h0, Nat.add_zero]
+  rw [if_neg (by omega)]
+  rfl
+
 /-
 NOT covered by these theorems (named, not hidden):
 * goroutine interleavings, channel semantics and data-race freedom: every chunk processor is modelled as a pure
